@@ -117,6 +117,9 @@ func (e *Engine) effective(fs *FuncSpec, key string) *effSpec {
 		for _, c := range s.Requires {
 			es.requires = append(es.requires, effClause{c, s, params})
 		}
+		for _, c := range s.Assumes {
+			es.assumes = append(es.assumes, effClause{c, s, params})
+		}
 		for _, c := range s.Ensures {
 			es.ensures = append(es.ensures, effClause{c, s, params})
 		}
